@@ -55,7 +55,8 @@ def st_case(scenario):
                "range_x": ([-0.8 * depth, 0.6 * z0] if rt != "absolute" else
                            draw(st.sampled_from([[0, 0], [-0.8 * depth, 0.6 * z0]]))),
                "optimal_fit_edelta": rt == "plateau", "optimal_fit_num_samples": 8}
-        edit = {"param": draw(st.sampled_from(["E", "contact_point", "baseline_vary", "geom"])),
+        edit = {"param": draw(st.sampled_from(["E", "contact_point", "baseline_vary", "geom", "cp_nm", "cp_nm",
+                                               "cp_bound_nm"])),
                 "factor": draw(st.sampled_from([0.5, 1.3, 2.0])),
                 "pipe_a": draw(st.integers(0, len(PIPES) - 1)), "pipe_b": draw(st.integers(0, len(PIPES) - 1)),
                 "poc_a": draw(st.sampled_from(POC)), "poc_b": draw(st.sampled_from(POC)),
@@ -98,6 +99,13 @@ def edit_params(p, case):
         p["E"].value = p["E"].value * e["factor"]
     elif e["param"] == "contact_point":
         p["contact_point"].value = p["contact_point"].value + 0.03 * case["curve"]["depth"] * e["factor"]
+    elif e["param"] == "cp_nm":
+        # SI-scale parameters: an edit of a few nanometres is a real change
+        p["contact_point"].vary = False
+        p["contact_point"].value = p["contact_point"].value + 4e-9 * e["factor"]
+    elif e["param"] == "cp_bound_nm":
+        p["contact_point"].min = p["contact_point"].min + 3e-9 * e["factor"] if np.isfinite(p["contact_point"].min) \
+            else p["contact_point"].value - 5e-9
     elif e["param"] == "baseline_vary":
         p["baseline"].vary = not p["baseline"].vary
     else:
@@ -151,7 +159,7 @@ def check_case(case, ctx):
             raise
 
 
-def _twin(case, ctx, desc, make_arg, edit_arg, call, prep=None, stored=None):
+def _twin(case, ctx, desc, make_arg, edit_arg, call, prep=None, stored=None, fresh_ref=True):
     """generic by-value protocol.
     make_arg() -> fresh argument object(s) as a dict; edit_arg(args) edits them in place;
     call(idnt, args) performs the library call; stored(idnt) -> value snapshot of what the
@@ -190,7 +198,22 @@ def _twin(case, ctx, desc, make_arg, edit_arg, call, prep=None, stored=None):
     with fitgen.catch() as box_b:
         call(b, args_b2)
     res_b = result(b)
+    # --- fresh curve C: only the second call, with a fresh equal-valued object ("the effect of a call depends
+    # only on the argument values at the time of the call")
+    c = prep(case)
+    args_c = make_arg(c)
+    edit_arg(args_c)
+    args_c = copy.deepcopy(args_c)
+    with fitgen.catch() as box_c:
+        call(c, args_c)
+    res_c = result(c)
+    ec = type(box_c["exc"]).__name__ if box_c["exc"] else None
     ea, eb = (type(box_a["exc"]).__name__ if box_a["exc"] else None), (type(box_b["exc"]).__name__ if box_b["exc"] else None)
+    if eb == ec and fresh_ref:
+        dc = same(res_b, res_c)
+        ctx.check(not dc, "edited-value-not-honoured", desc,
+                  f"a second call with an edited (fresh, equal-valued) object differs from the same call on a fresh "
+                  f"curve in {dc[:5]}")
     changed = bool(same(first_b, res_b)) or eb is not None
     ctx.note_case(case, nontrivial=changed, classes=[case["scenario"], "edit_changes_result" if changed else "edit_neutral"])
     ctx.check(not same(first_a, first_b), "twin-first-call-differs", desc,
@@ -216,7 +239,12 @@ def scenario_params_passed(case, ctx, desc):
     cfg = case["cfg"]
 
     def make(idnt):
-        return {"p": fitgen.initial_from_truth(case["curve"], e_factor=1.2, cp_off=0.02)}
+        p = fitgen.initial_from_truth(case["curve"], e_factor=1.2, cp_off=0.02)
+        if case["edit"]["param"] == "cp_nm":
+            p["contact_point"].set(vary=False)        # the later edit changes the value only (by a few nm)
+        elif case["edit"]["param"] == "cp_bound_nm":
+            p["contact_point"].set(min=p["contact_point"].value - 9e-9)   # active bound, later moved by a few nm
+        return {"p": p}
 
     def call(idnt, args):
         idnt.fit_model(params_initial=args["p"], **fit_kw(cfg))
@@ -341,7 +369,9 @@ def scenario_fit_pre_kwargs(case, ctx, desc):
     def call(idnt, args):
         idnt.fit_model(preprocessing=args["steps"], preprocessing_options=args["opts"], **fit_kw(cfg))
 
-    _twin(case, ctx, desc, make, edit, call, prep=lambda c: new_curve(c),
+    # (no fresh-curve reference here: the initial parameters are not passed, so the guess made from the data of
+    # the first pipeline is remembered - documented persistence of unspecified settings)
+    _twin(case, ctx, desc, make, edit, call, prep=lambda c: new_curve(c), fresh_ref=False,
           stored=lambda i: (copy.deepcopy(i.preprocessing), copy.deepcopy(i.preprocessing_options),
                             copy.deepcopy(i.fit_properties.get("preprocessing")),
                             copy.deepcopy(i.fit_properties.get("preprocessing_options"))))
@@ -498,13 +528,19 @@ def scenario_rater_arrays(case, ctx, desc):
     y = rng.randint(0, 11, size=40).astype(float)
     keepX, keepy, keepn = X.copy(), y.copy(), list(names)
     ctx.note_case(case, nontrivial=True, classes=["rater_arrays"])
-    rater = get_rater("Decision Tree", training_set=(X, y), names=names)
+    reg = ["Decision Tree", "SVR (RBF kernel)", "SVR (linear kernel)", "Extra Trees"][case["edit"]["pipe_a"] % 4]
+    rater = get_rater(reg, training_set=(X, y), names=names)
     S = rng.uniform(0, 1, size=(3, len(names)))
     keepS = S.copy()
     rater.rate(samples=S)
     w = IndentationRater.compute_sample_weight(X, y)
     ctx.check(np.array_equal(X, keepX) and np.array_equal(y, keepy) and names == keepn and np.array_equal(S, keepS),
-              "argument-mutated", desc, "rater modified training-set arrays, names or samples")
+              "argument-mutated", dict(desc, regressor=reg), "rater modified training-set arrays, names or samples")
+    # the same through rate_quality with an in-memory training set
+    idq = _fitted(case)
+    idq.rate_quality(regressor=reg, training_set=(X, y), names=names)
+    ctx.check(np.array_equal(X, keepX) and np.array_equal(y, keepy), "argument-mutated", dict(desc, regressor=reg),
+              "rate_quality modified the in-memory training set")
     del w
     idnt = _fitted(case)
     snap = fitgen.snapshot(idnt)
